@@ -135,6 +135,15 @@ theorem step_inv {nn ℓ : Nat} (hl : ℓ < nn) {s : St} (h : Inv nn ℓ s) (op 
   cases op with
   | view n k => cases hop
   | bad => exact h
+  | follow n =>
+    simp only [step]
+    (repeat' split) <;> first | exact h | exact ⟨h.views, h.onlyL, h.heldL⟩
+  | cancel n =>
+    simp only [step]
+    (repeat' split) <;> first | exact h | exact ⟨h.views, h.onlyL, h.heldL⟩
+  | join n =>
+    simp only [step]
+    (repeat' split) <;> first | exact h | exact ⟨h.views, h.onlyL, h.heldL⟩
   | kill n =>
     simp only [step]
     split
